@@ -25,25 +25,16 @@ class CanonError(Exception):
     pass
 
 
-# Configuration objects of the current world (snapshot.CONSTS) are never mutated by the code under
-# test. Their canonical string is computed once per object and re-verified by verify_consts() (a
-# mutation is a harness error, never a silently merged state).
-_CONST_CACHE: dict = {}  # id -> (object kept alive, canonical string)
+# Configuration objects of the current world (snapshot.CONSTS) keep their identity across snapshots and are
+# represented by their index; whatever differs from their pristine content is part of the key separately
+# (snapshot.consts_delta()), so a code-under-test that writes into its configuration is explored soundly.
 
 # exact type -> function returning the canonical string of an immutable value object
 ATOMIZERS: dict = {}
 
 
-def verify_consts() -> None:
-    for oid, (o, s) in list(_CONST_CACHE.items()):
-        out: list = []
-        _walk_obj(o, out, {}, 0)
-        if "".join(out) != s:
-            raise CanonError(f"configuration object {type(o).__name__} was mutated by the code under test: {s[:200]} -> {''.join(out)[:200]}")
-
-
 def reset_consts() -> None:
-    _CONST_CACHE.clear()
+    pass
 
 
 def _walk(o, out: list, memo: dict, depth: int = 0) -> None:
@@ -90,12 +81,6 @@ def _walk(o, out: list, memo: dict, depth: int = 0) -> None:
         out.append(az(o))
         return
     if id(o) in _CONST_IDS:
-        hit = _CONST_CACHE.get(id(o))
-        if hit is None:
-            sub: list = []
-            _walk_obj(o, sub, {}, depth)
-            hit = (o, f"K{_CONST_IDS[id(o)]}")
-            _CONST_CACHE[id(o)] = (o, "".join(sub))
         out.append(f"K{_CONST_IDS[id(o)]}")
         return
     _walk_obj(o, out, memo, depth)
